@@ -89,7 +89,7 @@ def _pure(ctx, res):
     res.samples += [l for l in lines if "\tfloat" in l][:1] + [l for l in lines if "\tbytes:" in l][:1] + \
                    [l for l in lines if l.startswith("Q") and "ok:" in l][:1] + [l for l in lines if l.startswith("G")][:2]
     seen = set()
-    for m in mism[:20]:
+    for m in mism[:3]:  # the driver prints at most 5 violations; leave room for the stateful part
         line = lines[m["line"] - 1]
         seen.add(m["line"] - 1)
         inp = "\t".join(line.split("\t")[:-1])
@@ -98,7 +98,7 @@ def _pure(ctx, res):
                       dict(kind="failing-input", part="pure",
                            cases=[dict(input=inp, expected=m["expected"], got=m["got"])],
                            replay_cmd="./check C19 --replay <this file>"))
-    for i in flagged[:5]:
+    for i in flagged[:2]:
         if i in seen:
             continue
         line = lines[i]
